@@ -1,6 +1,9 @@
 ------------------------------ MODULE MC_C14 ------------------------------
 EXTENDS EnumNum, TLC, Json
 MCNums == {-1, 0, 1, 2, 5}
+\* a sparse number set: numbers well above the count of items, next to each other and far apart (the numbering must not
+\* depend on the numbers being small: C14-m7 kept its used-number table as large as the item count)
+MCNumsSparse == {3, 4, 9}
 \* one line per completed legal enumeration: the case handed to the driver
 Emit == Done => PrintT(<<"CASE", ToJson([root |-> root, ext |-> ext, marker |-> marker, out |-> out])>>)
 \* a deliberately wrong numbering (positional, what the code did before the fix):
